@@ -183,7 +183,7 @@ def prefix_link(chk, i):
         if r.rc != 0:
             return [("prefix-build", "flex failed for prefix %s: %s" % (p, r.err[-400:]))], 0
         o = os.path.join(d, p + ".o")
-        c = util.run(["gcc", "-w", "-g", "-fsanitize=address,undefined", "-c", out, "-o", o], cwd=d,
+        c = util.run(["gcc", "-w", "-g", "-fsanitize=address,undefined"] + runner.scov.cflags() + ["-c", out, "-o", o], cwd=d,
                      env=util.clean_env(), timeout=120)
         if c.rc != 0:
             return [("prefix-build", "scanner with prefix %s does not compile: %s" % (
@@ -196,7 +196,7 @@ def prefix_link(chk, i):
         "\n".join(decls), " ".join(calls)))
     probs = []
     exe = os.path.join(d, "prog")
-    l = util.run(["gcc", "-g", "-fsanitize=address,undefined", "-o", exe, os.path.join(d, "main.c")] + objs,
+    l = util.run(["gcc", "-g", "-fsanitize=address,undefined"] + runner.scov.cflags() + ["-o", exe, os.path.join(d, "main.c")] + objs,
                  cwd=d, env=util.clean_env(), timeout=120)
     if l.rc != 0:
         probs.append(("prefix-link", "scanners with prefixes %s do not link: %s" % (
